@@ -18,12 +18,17 @@ Oracles (none of them uses the code under test):
 from __future__ import annotations
 
 import math
+import os
+import pickle
+import select
+import signal
+import time
 
 import numpy as np
 import pyproj
 from shapely import geometry as sg
 
-from vf import e1
+from vf import core, e1
 from vf.core import R
 
 PROPERTY = "C07"
@@ -33,8 +38,36 @@ from odc.geo.crs import CRS  # noqa: E402
 from odc.geo.geom import Geometry, densify  # noqa: E402
 
 INF = math.inf
-REL = 1e-9  # DESIGN section 3: 1e-9 * (|value| + unit)
-REL_RT = 1e-6  # there-and-back through a projection (DESIGN C07)
+REL = 1e-9  # relative to the LOCAL length scale (edge length / resolution), never to the coordinate magnitude
+REL_RT = 1e-6  # there-and-back through a projection (DESIGN C07): relative to the coordinate magnitude
+ULPS = 16  # head-room for binary64 rounding of a coordinate of magnitude M: ULPS * ulp(M)
+
+
+def ulp(m):
+    return math.ulp(max(abs(m), 1e-300))
+
+
+def edge_tol(rel, M, L):
+    """How far an added vertex may sit from its edge / how much a piece may exceed the resolution.
+
+    Same CRS (rel == REL): 1e-9 of the edge length plus a few ulps of the coordinates (a tolerance scaled
+    by the coordinate magnitude would be many edge lengths for a 4.5e-6-sized geometry at lon 150).
+    Mapped back through an inverse projection (rel == REL_RT): 1e-6 of the coordinate magnitude."""
+    if rel == REL:
+        return REL * L + ULPS * ulp(M)
+    return rel * (M + L)
+
+
+def len_tol(li, M, nv):
+    return REL * abs(li) + 4 * nv * ulp(M)
+
+
+def area_tol(ai, li, M):
+    return REL * abs(ai) + 8 * ulp(M) * abs(li)
+
+
+def nverts(pp_):
+    return sum(len(c) for _, _, c in pp_)
 
 # ---------------------------------------------------------------------------------------------
 # flattening a shapely geometry into paths; structure signature
@@ -140,7 +173,7 @@ def judge_dense_path(fail, tag, ctxmsg, pid, src, out_src, idx, res, rel):
         mid = out_src[idx[i] + 1: idx[i + 1]]
         L = math.hypot(q[0] - p[0], q[1] - p[1])
         M = max(abs(p[0]), abs(p[1]), abs(q[0]), abs(q[1]))
-        tol = rel * (M + L)
+        tol = edge_tol(rel, M, L)
         if L > lim:
             needed += 1
         if not mid:
@@ -192,10 +225,10 @@ def judge_segmented(fail, tag, ctxmsg, shp_in, shp_out, res):
         added += a
     M = maxabs(pin)
     li, lo = shp_in.length, shp_out.length
-    if not abs(lo - li) <= REL * (abs(li) + M):
+    if not abs(lo - li) <= len_tol(li, M, nverts(pout)):
         fail(f"{tag}:length-changed", f"{ctxmsg}: length {li!r} became {lo!r}")
     ai, ao = shp_in.area, shp_out.area
-    if not abs(ao - ai) <= REL * (abs(ai) + M * abs(li)):
+    if not abs(ao - ai) <= area_tol(ai, li, M):
         fail(f"{tag}:area-changed", f"{ctxmsg}: area {ai!r} became {ao!r}")
     return needed, added
 
@@ -354,7 +387,7 @@ def run_edges(case):
     else:
         needed, added = judge_dense_path(fail, tag, f"densify({msg})", "coords", coords, got, idx, res, REL)
         lo = sg.LineString(got).length if len(got) > 1 else 0.0
-        if not abs(lo - ref.length) <= REL * (ref.length + maxabs([(0, 0, coords)])):
+        if not abs(lo - ref.length) <= len_tol(ref.length, maxabs([(0, 0, coords)]), len(got)):
             fail(f"{tag}:length-changed", f"densify({msg}): length {ref.length!r} became {lo!r}")
 
     # (b) the Geometry method on the same line (CRS handling is covered by the segmented-kinds slice)
@@ -468,6 +501,10 @@ def spell(code, how):
         return pyproj.CRS.from_epsg(code)
     if how == "crs":
         return CRS(f"EPSG:{code}")
+    if how == "json":
+        return pyproj.CRS.from_epsg(code).to_json_dict()
+    if how == "EpSg":
+        return f"EpSg:{code}"
     raise AssertionError(how)
 
 
@@ -521,6 +558,16 @@ def _selfcheck():
                                 f"harness: long shape {src}->{dst} from {(x0, y0)} dir {di} leaves the valid "
                                 f"area of EPSG:{code}: lon/lat {(lon, lat)}")
     _checked = True
+
+
+def _vclose(a, b):
+    """a vertex against what pyproj gives for it: bit-equal or within a few ulps (non-finite: same kind)"""
+    for u, v in zip(a, b):
+        if u == v or (math.isnan(u) and math.isnan(v)):
+            continue
+        if not (math.isfinite(u) and math.isfinite(v)) or abs(u - v) > ULPS * ulp(max(abs(v), 1.0)):
+            return False
+    return True
 
 
 def _close(a, b, rel):
@@ -618,7 +665,7 @@ def run_to_crs(case):
             for k, (a, b) in enumerate(zip(cout, want)):
                 if a == b:
                     n_exact += 1
-                elif _close(a, b, REL):
+                elif _vclose(a, b):
                     n_tol += 1
                 else:
                     fail(f"{tag}:vertex-differs-from-pyproj",
@@ -627,7 +674,7 @@ def run_to_crs(case):
                     break
             continue
         # densify-then-project: originals (projected) must be found in order ...
-        idx, nfound = match_originals(cin, cout, lambda k, p, o, want=want: _close(o, want[k], REL))
+        idx, nfound = match_originals(cin, cout, lambda k, p, o, want=want: _vclose(o, want[k]))
         if idx is None:
             fail(f"{tag}:original-vertex-lost",
                  f"{call} path {pid}: projected original vertex #{nfound} {cin[nfound]} -> {want[nfound]} "
@@ -665,7 +712,7 @@ def run_to_crs(case):
 # ---------------------------------------------------------------------------------------------
 # slice 4: already in the target CRS (any spelling on either side) -> the input, unchanged
 # ---------------------------------------------------------------------------------------------
-SPELLS = ("EPSG", "epsg", "int", "wkt", "pyproj", "crs")
+SPELLS = ("EPSG", "epsg", "int", "wkt", "pyproj", "crs", "json", "EpSg")
 SAME_PLACES = {4326: (0.0, 0.0, 10.0), 3857: (0.0, 0.0, 1e6), 32633: (5e5, 5e6, 2e4)}
 SAME_RES = (None, 0.5, INF, "auto")
 
@@ -827,7 +874,7 @@ def run_transformer(case):
             a = (float(a[0]), float(a[1]))
             if a == b:
                 n_exact += 1
-            elif _close(a, b, REL):
+            elif _vclose(a, b):
                 n_tol += 1
             else:
                 r.fail(f"transformer:{cls}:differs-from-pyproj",
@@ -990,7 +1037,7 @@ def judge_dense_path_np(fail, tag, ctxmsg, pid, src, out_src, idx, res, rel):
         mid = out_src[idx[i] + 1: idx[i + 1]]
         L = math.hypot(q[0] - p[0], q[1] - p[1])
         M = max(abs(p[0]), abs(p[1]), abs(q[0]), abs(q[1]))
-        tol = rel * (M + L)
+        tol = edge_tol(rel, M, L)
         if L > lim:
             needed += 1
         if mid.shape[0] == 0:
@@ -1038,7 +1085,7 @@ def judge_long(fail, tag, msg, shp_in, shp_out, res, src=None, dst=None):
             rel = REL
         else:
             want = project(src, dst, cin)
-            idx, nfound = match_np(want, out, [REL * (max(abs(w[0]), abs(w[1])) + 1.0) for w in want])
+            idx, nfound = match_np(want, out, [ULPS * ulp(max(abs(w[0]), abs(w[1]), 1.0)) for w in want])
             rel = REL_RT
         if idx is None:
             fail(f"{tag}:original-vertex-lost",
@@ -1055,10 +1102,10 @@ def judge_long(fail, tag, msg, shp_in, shp_out, res, src=None, dst=None):
     if src is None:
         M = maxabs(pin)
         li, lo = shp_in.length, shp_out.length
-        if not abs(lo - li) <= REL * (abs(li) + M):
+        if not abs(lo - li) <= len_tol(li, M, nverts(pout)):
             fail(f"{tag}:length-changed", f"{msg}: length {li!r} became {lo!r}")
         ai, ao = shp_in.area, shp_out.area
-        if not abs(ao - ai) <= REL * (abs(ai) + M * abs(li)):
+        if not abs(ao - ai) <= area_tol(ai, li, M):
             fail(f"{tag}:area-changed", f"{msg}: area {ai!r} became {ao!r}")
     return needed, added
 
@@ -1184,6 +1231,57 @@ def _tr_coords(tr, coords):
     return list(zip(X.tolist(), Y.tolist()))
 
 
+def _judge_between(r, fail, tag, call, g, out, shp, fwd, inv, P_dst, res, same_crs):
+    """Judge g.to_crs(...) -> out between two DEFINITIONS (fwd / inv: the check's transformers between them)."""
+    pin = paths(shp)
+    if same_crs:
+        r.outcome += ":same-object" if out is g else ":copy"
+        if out is not g and [tuple(x) for x in paths(out.geom)] != [tuple(x) for x in pin]:
+            fail(f"{tag}:same-crs:geometry-changed", f"{call}: source and target are the same CRS but the geometry changed")
+        return r
+    # the two definitions are different CRSs: the input must not come back
+    pout = paths(out.geom)
+    if out.geom.geom_type != shp.geom_type or signature(pin) != signature(pout):
+        fail(f"{tag}:structure-changed", f"{call}: {signature(pin)} became {signature(pout)}")
+        return r
+    lbl_ok = out.crs is not None and out.crs.proj == P_dst
+    if not lbl_ok:
+        fail(f"{tag}:result-crs", f"{call}: result is labelled {str(out.crs)[:80]}, not with the target definition")
+    n_exact = n_tol = 0
+    for (pid, pkind, cin), (_, _, cout) in zip(pin, pout):
+        want = _tr_coords(fwd, cin)
+        if res is None or pkind in ("pt", "empty"):
+            if len(cout) != len(cin):
+                fail(f"{tag}:vertex-count-changed", f"{call} path {pid}: {len(cin)} vertices became {len(cout)}")
+                continue
+            for k, (a, b) in enumerate(zip(cout, want)):
+                if a == b:
+                    n_exact += 1
+                elif _vclose(a, b):
+                    n_tol += 1
+                else:
+                    unchanged = out is g or a == cin[k]
+                    fail(f"{tag}:{'input-returned-unprojected' if unchanged else 'vertex-differs-from-pyproj'}",
+                         f"{call} path {pid} vertex #{k} {cin[k]}: got {a}; pyproj.Transformer.from_crs between the "
+                         f"two definitions (CRS objects built by the check from the same texts, always_xy=True) "
+                         f"gives {b}" + (" - the input came back untouched" if unchanged else ""))
+                    break
+            continue
+        idx, nfound = match_originals(cin, cout, lambda k, p, o, want=want: _vclose(o, want[k]))
+        if idx is None:
+            unchanged = out is g or list(cout) == list(cin)
+            fail(f"{tag}:{'input-returned-unprojected' if unchanged else 'original-vertex-lost'}",
+                 f"{call} path {pid}: projected original vertex #{nfound} {cin[nfound]} -> {want[nfound]} not found "
+                 f"(in order) in the output ({len(cout)} vertices, first {cout[0]})")
+            continue
+        back = _tr_coords(inv, cout)
+        for i, j in enumerate(idx):
+            back[j] = cin[i]
+        judge_dense_path(fail, tag, call, pid, cin, back, idx, res, REL_RT)
+    r.counts = {"vertices-bit-exact": n_exact, "vertices-within-tolerance": n_tol}
+    return r
+
+
 def run_stale(case):
     di, partner, direction, hist, tform, kind, res0 = case
     name, code, edit = STALE_DEFS[di]
@@ -1225,53 +1323,454 @@ def run_stale(case):
             f"EPSG:{pcode}, history {hist}, target given as {tform}: Geometry({shp.wkt[:160]}, <source>)"
             f".to_crs(<target>, resolution={res!r})")
     out = g.to_crs(target, res)
-    pin = paths(shp)
-    if same_crs:
-        r.outcome += ":same-object" if out is g else ":copy"
-        if out is not g and [tuple(x) for x in paths(out.geom)] != [tuple(x) for x in pin]:
-            fail(f"{tag}:same-crs:geometry-changed", f"{call}: source and target are the same CRS but the geometry changed")
-        return r
-    # the two definitions are different CRSs: the input must not come back
-    pout = paths(out.geom)
-    if out.geom.geom_type != shp.geom_type or signature(pin) != signature(pout):
-        fail(f"{tag}:structure-changed", f"{call}: {signature(pin)} became {signature(pout)}")
-        return r
-    lbl_ok = out.crs is not None and out.crs.proj == P_dst
-    if not lbl_ok:
-        fail(f"{tag}:result-crs", f"{call}: result is labelled {str(out.crs)[:80]}, not with the target definition")
-    n_exact = n_tol = 0
-    for (pid, pkind, cin), (_, _, cout) in zip(pin, pout):
-        want = _tr_coords(fwd, cin)
-        if res is None or pkind in ("pt", "empty"):
-            if len(cout) != len(cin):
-                fail(f"{tag}:vertex-count-changed", f"{call} path {pid}: {len(cin)} vertices became {len(cout)}")
-                continue
-            for k, (a, b) in enumerate(zip(cout, want)):
-                if a == b:
-                    n_exact += 1
-                elif _close(a, b, REL):
-                    n_tol += 1
-                else:
-                    unchanged = out is g or a == cin[k]
-                    fail(f"{tag}:{'input-returned-unprojected' if unchanged else 'vertex-differs-from-pyproj'}",
-                         f"{call} path {pid} vertex #{k} {cin[k]}: got {a}; pyproj.Transformer.from_crs between the "
-                         f"two definitions (CRS objects built by the check from the same texts, always_xy=True) "
-                         f"gives {b}" + (" - the input came back untouched" if unchanged else ""))
-                    break
-            continue
-        idx, nfound = match_originals(cin, cout, lambda k, p, o, want=want: _close(o, want[k], REL))
-        if idx is None:
-            unchanged = out is g or list(cout) == list(cin)
-            fail(f"{tag}:{'input-returned-unprojected' if unchanged else 'original-vertex-lost'}",
-                 f"{call} path {pid}: projected original vertex #{nfound} {cin[nfound]} -> {want[nfound]} not found "
-                 f"(in order) in the output ({len(cout)} vertices, first {cout[0]})")
-            continue
-        back = _tr_coords(inv, cout)
-        for i, j in enumerate(idx):
-            back[j] = cin[i]
-        judge_dense_path(fail, tag, call, pid, cin, back, idx, res, REL_RT)
-    r.counts = {"vertices-bit-exact": n_exact, "vertices-within-tolerance": n_tol}
+    return _judge_between(r, fail, tag, call, g, out, shp, fwd, inv, P_dst, res, same_crs)
+
+
+# ---------------------------------------------------------------------------------------------
+# slice: both sides of the "already fine enough" test, tiny and huge geometries, > 65536 pieces,
+#        and the caller's coordinate list (must not be modified; a second call must answer the same)
+# ---------------------------------------------------------------------------------------------
+# steps = edge length / resolution: around 1 (densify or not) and around 2, 3 (one or two added vertices)
+BFACT = (0.9, 0.999, 1 - 1e-12, 1.0, 1 + 1e-12, 1.001, 1.1, 1.999, 2.001, 2.9, 3.1)
+BSCALES = (4.5e-6, 1.0, 30.0, 1e7)  # edge length
+BORIG = ((0.0, 0.0), (150.25, -33.5), (500000.5, 6200000.0), (-1e7, 1e7))
+BHUGE = (65535.5, 65536.5, 70000.3)  # pieces per edge beyond 16 bits
+
+
+def gen_boundary(tier):
+    def gen():
+        for api in ("densify", "segmented"):
+            for f in BFACT:
+                for di in range(len(LDIRS)):
+                    for oi in range(len(BORIG)):
+                        for L in BSCALES:
+                            yield (api, f, di, oi, L)
+        for api in ("densify", "segmented"):
+            for f in BHUGE:
+                for di in range(len(LDIRS) if tier == "thorough" else 4):
+                    for oi in ((0, 2) if tier == "thorough" else (0,)):
+                        yield (api, f, di, oi, 1.0)
+
+    return gen
+
+
+def run_boundary(case):
+    api, f, di, oi, L0 = case
+    dcls, ux, uy = LDIRS[di]
+    x0, y0 = BORIG[oi]
+    # a second, short edge after the long one so that the end vertex of the judged edge is an inner vertex
+    coords = [(x0, y0), (x0 + L0 * ux, y0 + L0 * uy), (x0 + L0 * ux - 0.25 * L0 * uy, y0 + L0 * uy + 0.25 * L0 * ux)]
+    L = math.hypot(coords[1][0] - coords[0][0], coords[1][1] - coords[0][1])
+    res = L / f
+    shp = sg.LineString(coords)
+    r = R()
+    fail = Once(r)
+    cls = "over-65535-pieces" if f > 60000 else ("steps-near-1" if f < 1.5 else "steps-2-3")
+    size = "tiny" if L0 < 1e-3 else ("huge" if L0 > 1e6 else "normal")
+    if api == "densify":
+        given = list(coords)
+        before = [tuple(c) for c in given]
+        got = densify(given, res)
+        tag = f"densify:{cls}:{size}:edge-{dcls}"
+        msg = f"densify({coords}, {res!r}) [edge length / resolution = {f!r}]"
+        if given != before or len(given) != len(before):
+            fail("densify:input-list-modified", f"{msg}: the caller's list is now {given[:6]}{'...' if len(given) > 6 else ''}")
+        if got is given:
+            fail("densify:returns-input-list", f"{msg}: the returned list is the caller's list object")
+        again = densify(list(coords), res)
+        if [tuple(c) for c in again] != [tuple(c) for c in got]:
+            fail("densify:second-call-differs", f"{msg}: a second call returned {len(again)} vertices, the first {len(got)}")
+        out_shp = sg.LineString([tuple(c) for c in got]) if len(got) > 1 else sg.LineString()
+    else:
+        tag = f"segmented:{cls}:{size}:edge-{dcls}"
+        msg = f"Geometry({shp.wkt}).segmented({res!r}) [edge length / resolution = {f!r}]"
+        g = Geometry(shp, "EPSG:32755")
+        o = g.segmented(res)
+        if list(g.geom.coords) != coords:
+            fail("segmented:input-geometry-modified", f"{msg}: the input geometry changed")
+        out_shp = o.geom
+    needed, added = judge_long(fail, tag, msg, shp, out_shp, res)
+    r.outcome = f"{api}:{cls}:{size}:{'needed' if needed else 'not-needed'}:{'added' if added else 'unchanged'}"
+    r.nontrivial = True
     return r
+
+
+# ---------------------------------------------------------------------------------------------
+# slice: resolutions that are not a positive float - every call in a child process with a HARD time limit
+# ---------------------------------------------------------------------------------------------
+GUARD_LIMIT_S = 2.0
+
+
+def run_guarded(fn, limit=GUARD_LIMIT_S):
+    """Run fn() in a forked child. -> ("ok", value) | ("raised", (type name, text, raised inside the tree,
+    file:function)) | ("timeout", None) | ("died", exit status). A call that does not return is killed."""
+    rfd, wfd = os.pipe()
+    pid = os.fork()
+    if pid == 0:  # child
+        code = 0
+        try:
+            os.close(rfd)
+            try:
+                res = ("ok", fn())
+            except BaseException as e:  # pylint: disable=broad-except
+                res = ("raised", (type(e).__name__, str(e)[:300], core.in_repo_tb(e), core.raise_site(e)))
+            with os.fdopen(wfd, "wb") as f:
+                pickle.dump(res, f, protocol=4)
+        except BaseException:  # pylint: disable=broad-except
+            code = 3
+        finally:
+            os._exit(code)  # pylint: disable=protected-access
+    os.close(wfd)
+    chunks = []
+    deadline = time.monotonic() + limit
+    timed_out = False
+    with os.fdopen(rfd, "rb") as f:
+        while True:
+            left = deadline - time.monotonic()
+            if left <= 0:
+                timed_out = True
+                break
+            ready, _, _ = select.select([f], [], [], left)
+            if not ready:
+                timed_out = True
+                break
+            b = os.read(f.fileno(), 1 << 20)
+            if not b:
+                break
+            chunks.append(b)
+    if timed_out:
+        os.kill(pid, signal.SIGKILL)
+        os.waitpid(pid, 0)
+        return ("timeout", None)
+    _, status = os.waitpid(pid, 0)
+    if status != 0 or not chunks:
+        return ("died", status)
+    return pickle.loads(b"".join(chunks))
+
+
+# resolution spellings: name -> callable(step) giving the value handed to the library
+def _res_value(name, step):
+    return {
+        "int-0": lambda: 0, "float-0.0": lambda: 0.0, "float--0.0": lambda: -0.0, "float--1": lambda: -1.0 * step,
+        "-inf": lambda: -INF, "nan": lambda: math.nan, "auto": lambda: "auto",
+        "np.float64": lambda: np.float64(2.5 * step), "np.float32": lambda: np.float32(2.5 * step),
+        "np.int64": lambda: np.int64(3 * step), "int": lambda: int(3 * step), "np.float64-0": lambda: np.float64(0.0),
+        "np.array-0d": lambda: np.asarray(2.5 * step),
+    }[name]()
+
+
+ODD_NONPOS = ("int-0", "float-0.0", "float--0.0", "float--1", "-inf", "nan", "np.float64-0")
+ODD_ENC = ("np.float64", "np.float32", "np.int64", "int", "np.array-0d")
+_T["polygon-flat"] = ("Polygon", [[(-2, 0), (0, 0), (5, 0), (-2, 0)]])  # zero area
+_T["line-zero"] = ("LineString", [(1, 2), (1, 2)])  # zero length
+ODD_KINDS = ("line", "polygon-hole", "collection", "multipoint")
+ODD_AUTO_KINDS = ("point", "multipoint", "line", "ring", "multiline", "polygon-flat", "line-zero")  # area == 0
+ODD_STEP = 4.0  # dyadic, so that the float32 / integer spellings name exactly the same number
+
+
+def gen_odd(tier):
+    def gen():
+        for api in ("densify", "segmented", "to_crs"):
+            for kind in (("line",) if api == "densify" else ODD_KINDS):
+                for rn in ODD_NONPOS + ODD_ENC:
+                    yield (api, kind, rn)
+        for kind in ODD_AUTO_KINDS:
+            for flag in ("plain", "wrapdateline+check_and_fix"):
+                yield ("to_crs", kind, "auto:" + flag)
+
+    return gen
+
+
+def run_odd(case):
+    api, kind, rn = case
+    flag = "plain"
+    if rn.startswith("auto:"):
+        rn, flag = rn.split(":")
+    # 3857 -> 4326 around the origin: well inside both valid areas
+    src, dst = 3857, 4326
+    step = ODD_STEP * (1.0 if api != "to_crs" else 65536.0)
+    shp = make_shape(kind, 0, 0.0, 0.0, step)
+    res = _res_value(rn, step)
+    cls = ("non-positive" if rn in ODD_NONPOS else ("auto-on-zero-area" if rn == "auto" else "number-type"))
+    r = R(outcome=f"{api}:{cls}:{rn}")
+    fail = Once(r)
+    tag = f"{api}:resolution-{rn}" if cls == "number-type" else f"{api}:resolution-{cls}"
+    rtxt = f"{res!r} ({type(res).__name__})"
+
+    if api == "densify":
+        coords = list(shp.coords)
+        call = f"densify({coords}, {rtxt})"
+
+        def fn():
+            return ("LineString", sg.LineString([tuple(map(float, c)) for c in densify(list(coords), res)]).wkb, None)
+    elif api == "segmented":
+        call = f"Geometry({shp.wkt}, EPSG:{src}).segmented({rtxt})"
+
+        def fn():
+            o = Geometry(shp, f"EPSG:{src}").segmented(res)
+            return (o.geom.geom_type, o.geom.wkb, str(o.crs))
+    else:
+        call = f"Geometry({shp.wkt}, EPSG:{src}).to_crs(EPSG:{dst}, resolution={rtxt}{', ' + flag if flag != 'plain' else ''})"
+
+        def fn():
+            o = Geometry(shp, f"EPSG:{src}").to_crs(f"EPSG:{dst}", res, **flag_kw(flag))
+            return (o.geom.geom_type, o.geom.wkb, str(o.crs))
+
+    status, val = run_guarded(fn)
+    if status == "timeout":
+        r.outcome += ":does-not-terminate"
+        fail(f"{tag}:does-not-terminate",
+             f"{call} did not return within {GUARD_LIMIT_S} s (killed); a resolution that cannot be honoured has to be "
+             f"refused or ignored, and 'auto' on a geometry without area has to terminate")
+        return r
+    if status == "died":
+        r.outcome += ":process-died"
+        fail(f"{tag}:{kind}:process-died", f"{call}: the process running the call died (status {val})")
+        return r
+    if status == "raised":
+        tname, text, in_repo, site = val
+        r.outcome += f":raised-{tname}"
+        if cls == "non-positive" and tname in ("ValueError",):
+            return r  # refused: fine
+        fail(f"{tag}:{kind}:raised-{tname}", f"{call} raised {tname}: {text} (at {site})")
+        return r
+    from shapely import wkb as _wkb  # pylint: disable=import-outside-toplevel
+
+    gtype, blob, crs_s = val
+    out = _wkb.loads(blob)
+    r.outcome += ":returned"
+    if api == "to_crs":
+        if crs_s != f"EPSG:{dst}":
+            fail("to_crs:result-crs", f"{call}: labelled {crs_s}")
+        eff = None
+        if cls == "number-type":
+            eff = float(res)
+        # non-positive / nan / auto: no resolution to honour; structure, original vertices, on-edge still hold
+        judge_long(fail, tag + ":" + kind, call, shp, out, INF if eff is None else eff, src, dst)
+    else:
+        if api == "segmented" and crs_s != f"EPSG:{src}":
+            fail("segmented:crs-changed", f"{call}: labelled {crs_s}")
+        eff = float(res) if cls == "number-type" else INF
+        judge_long(fail, tag + ":" + kind, call, shp, out, eff)
+    return r
+
+
+# ---------------------------------------------------------------------------------------------
+# slice: the same coordinates in other encodings (differential against plain float tuples)
+# ---------------------------------------------------------------------------------------------
+ENCODINGS = ("float", "int", "list", "np.float32", "np.float64", "np.int32", "negzero", "xyz-geojson", "ndarray")
+ENC_KINDS = ("point", "multipoint", "line", "polygon-hole", "multipolygon")
+ENC_PLACES = ((0, 0, 1), (1000, -2000, 16))  # integers below 2**24: exact in every encoding
+ENC_APIS = ("densify", "segmented", "to_crs", "to_crs-resolution")
+
+
+def _enc_pt(p, enc):
+    x, y = p
+    if enc == "int":
+        return (int(x), int(y))
+    if enc == "list":
+        return [float(x), float(y)]
+    if enc == "np.float32":
+        return (np.float32(x), np.float32(y))
+    if enc == "np.float64":
+        return (np.float64(x), np.float64(y))
+    if enc == "np.int32":
+        return (np.int32(x), np.int32(y))
+    if enc == "negzero":
+        return (-0.0 if x == 0 else float(x), -0.0 if y == 0 else float(y))
+    if enc == "xyz-geojson":
+        return (float(x), float(y), 7.0)
+    return (float(x), float(y))
+
+
+def _enc_tree(t, f, enc):
+    """template -> nested coordinate lists in the encoding (the shape the library constructors take)"""
+    typ, data = t
+    P = lambda q: _enc_pt(f(*q), enc)  # noqa: E731
+    if typ == "Point":
+        return P(data)
+    if typ in ("MultiPoint", "LineString"):
+        return [P(q) for q in data]
+    if typ == "Polygon":
+        return [[P(q) for q in ring] for ring in data]
+    if typ == "MultiPolygon":
+        return [[[P(q) for q in ring] for ring in poly] for poly in data]
+    raise AssertionError(typ)
+
+
+def _enc_geometry(kind, place, enc, crs):
+    from odc.geo import geom as G  # pylint: disable=import-outside-toplevel
+
+    ox, oy, step = place
+    tree = _enc_tree(_T[kind], placer(0, ox, oy, step), enc)
+    if kind == "point":
+        if enc == "xyz-geojson":
+            return Geometry({"type": "Point", "coordinates": tree}, crs)
+        return G.point(tree[0], tree[1], crs)
+    if kind == "multipoint":
+        return G.multipoint(tree, crs)
+    if kind == "line":
+        return G.line(tree, crs)
+    if kind == "polygon-hole":
+        return G.polygon(tree[0], crs, *tree[1:])
+    return G.multipolygon(tree, crs)
+
+
+def gen_enc(tier):
+    def gen():
+        for api in ENC_APIS:
+            for kind in (("line",) if api == "densify" else ENC_KINDS):
+                for pi in range(len(ENC_PLACES)):
+                    for enc in ENCODINGS:
+                        if enc == "ndarray" and api != "densify":
+                            continue  # an array is a coordinate list for densify() only
+                        if enc == "xyz-geojson" and api == "densify":
+                            continue  # z is dropped by the Geometry constructor (documented); densify() is 2-D
+                        yield (api, kind, pi, enc)
+
+    return gen
+
+
+def run_enc(case):
+    api, kind, pi, enc = case
+    place = ENC_PLACES[pi]
+    ox, oy, step = place
+    res = 2.5 * step
+    shp = make_shape(kind, 0, float(ox), float(oy), float(step))  # reference shape, float64
+    r = R(outcome=f"{api}:{enc}")
+    fail = Once(r)
+    tag = f"{api}:coordinates-as-{enc}:{kind}"
+    if api == "densify":
+        base = list(shp.coords)
+        given = np.asarray(base, dtype="float64") if enc == "ndarray" else [_enc_pt(p, enc) for p in base]
+        snapshot = [tuple(map(float, c)) for c in given]
+        got = [tuple(map(float, c[:2])) for c in densify(given, res)]
+        ref = [tuple(map(float, c)) for c in densify([tuple(c) for c in base], res)]
+        call = f"densify(<{base} as {enc}>, {res!r})"
+        if [tuple(map(float, c)) for c in given] != snapshot:
+            fail("densify:input-list-modified", f"{call}: the caller's coordinates changed")
+        if got != ref:
+            fail(f"{tag}:differs-from-float-tuples", f"{call} -> {got[:8]}..., with float tuples {ref[:8]}...")
+        judge_long(fail, tag, call, shp, sg.LineString(got), res)
+        return r
+    src, dst = 3857, 4326
+    try:
+        g = _enc_geometry(kind, place, enc, f"EPSG:{src}")
+    except ValueError as e:
+        if enc in ("np.float32", "np.int32") and "invalid coordinate" in str(e):
+            # construction (not C07's subject) refuses numpy scalars that are not Python floats: observed
+            r.outcome = f"{api}:{enc}:construction-refused-ValueError"
+            r.nontrivial = False
+            r.counts = {"observation:constructor-refuses-" + enc + "-coordinates": 1}
+            return r
+        raise
+    g0 = _enc_geometry(kind, place, "float", f"EPSG:{src}")
+    call = f"<{kind} {shp.wkt[:120]} built from {enc} coordinates>"
+    if [tuple(x) for x in paths(g.geom)] != [tuple(x) for x in paths(shp)]:
+        fail(f"construct:coordinates-as-{enc}:{kind}:differs-from-float-tuples",
+             f"{call}: constructed {g.wkt[:200]}")
+        return r
+    if api == "segmented":
+        o, o0 = g.segmented(res), g0.segmented(res)
+        call += f".segmented({res!r})"
+        judge_long(fail, tag, call, shp, o.geom, res)
+    elif api == "to_crs":
+        o, o0 = g.to_crs(f"EPSG:{dst}"), g0.to_crs(f"EPSG:{dst}")
+        call += f".to_crs(EPSG:{dst})"
+        for (pid, _, cin), (_, _, cout) in zip(paths(shp), paths(o.geom)):
+            want = project(src, dst, cin)
+            if len(cout) != len(want) or not all(_vclose(a, b) for a, b in zip(cout, want)):
+                fail(f"{tag}:vertex-differs-from-pyproj", f"{call} path {pid}: {cout[:4]} vs pyproj {want[:4]}")
+    else:
+        o, o0 = g.to_crs(f"EPSG:{dst}", res), g0.to_crs(f"EPSG:{dst}", res)
+        call += f".to_crs(EPSG:{dst}, resolution={res!r})"
+        judge_long(fail, tag, call, shp, o.geom, res, src, dst)
+    if o.geom.geom_type != o0.geom.geom_type or [tuple(x) for x in paths(o.geom)] != [tuple(x) for x in paths(o0.geom)]:
+        fail(f"{tag}:differs-from-float-tuples", f"{call} -> {o.wkt[:200]}, from float tuples {o0.wkt[:200]}")
+    return r
+
+
+# ---------------------------------------------------------------------------------------------
+# slice: definitions that are the same / nearly the same / look the same, with and without an EPSG code
+# ---------------------------------------------------------------------------------------------
+_LAEA = "+proj=laea +lat_0=52 +lon_0=10 +x_0=4321000 +y_0=3210000 +ellps=GRS80 +units=m +no_defs"
+NS_DEFS = (
+    ("EPSG:4326", "EPSG:4326", "lonlat"), ("EPSG:4258", "EPSG:4258", "lonlat"),
+    ("EPSG:32633", "EPSG:32633", "utm"), ("EPSG:25833", "EPSG:25833", "utm"),
+    ("EPSG:3035", "EPSG:3035", "laea"),
+    ("laea-proj4", _LAEA, "laea"),  # no EPSG code
+    ("laea-wkt", None, "laea"),  # the WKT text of the previous one
+    ("laea-proj4-shifted", _LAEA.replace("+lon_0=10 ", "+lon_0=10.000001 "), "laea"),
+)
+NS_PLACES = {"lonlat": (15.0, 50.0, 0.1), "utm": (5e5, 5.54e6, 1e4), "laea": (4.68e6, 3.0e6, 1e4)}  # all near 15E 50N
+NS_HIST = ("cold", "both.epsg", "twice", "other-target-first")
+_NS = {}
+
+
+def ns_def(i):
+    if i not in _NS:
+        name, text, fam = NS_DEFS[i]
+        if text is None:
+            text = pyproj.CRS.from_user_input(_LAEA).to_wkt()
+        _NS[i] = (name, text, pyproj.CRS.from_user_input(text), fam)
+    return _NS[i]
+
+
+def gen_near(tier):
+    def gen():
+        for a in range(len(NS_DEFS)):
+            for b in range(len(NS_DEFS)):
+                for hist in NS_HIST:
+                    for tform in ("crs-object", "text"):
+                        for kind in ("point", "polygon-hole"):
+                            for res0 in (None, 2.5):
+                                yield (a, b, hist, tform, kind, res0)
+
+    return gen
+
+
+def run_near(case):
+    a, b, hist, tform, kind, res0 = case
+    na, ta, Pa, fam = ns_def(a)
+    nb, tb, Pb, _ = ns_def(b)
+    k = ("near", a, b)
+    if k not in _TR:
+        _TR[k] = (pyproj.Transformer.from_crs(Pa, Pb, always_xy=True), pyproj.Transformer.from_crs(Pb, Pa, always_xy=True))
+    fwd, inv = _TR[k]
+    ox, oy, step = NS_PLACES[fam]
+    shp = make_shape(kind, 0, ox, oy, step)
+    res = None if res0 is None else res0 * step
+    same = Pa == Pb  # pyproj's verdict on the two definitions
+    g = Geometry(shp, CRS(ta))
+    dst_crs = CRS(tb)
+    if hist == "both.epsg":
+        _ = (g.crs.epsg, dst_crs.epsg)
+    target = dst_crs if tform == "crs-object" else tb
+    r = R(outcome=f"{'same' if same else 'different'}:{hist}")
+    fail = Once(r)
+    tag = f"to_crs:{'same' if same else 'different'}-definitions:{hist}"
+    call = (f"Geometry({shp.wkt[:120]}, {na}).to_crs({nb} as {tform}, resolution={res!r}) after history {hist} "
+            f"[pyproj: definitions {'equal' if same else 'differ'}]")
+    if hist == "other-target-first":
+        _ = g.to_crs("EPSG:3857", res)
+    first = None
+    if hist == "twice":
+        first = g.to_crs(target, res)
+    out = g.to_crs(target, res)
+    if first is not None and [tuple(x) for x in paths(first.geom)] != [tuple(x) for x in paths(out.geom)]:
+        fail(f"{tag}:second-call-differs", f"{call}: the second identical call gave another geometry")
+    ea, eb = Pa.to_epsg(), Pb.to_epsg()
+    if not same and ea is not None and ea == eb:
+        # pyproj does not call the definitions equal but identifies both as the same EPSG code (a PROJ string
+        # without datum against the EPSG entry; the transformation between them is the identity). The library
+        # treats them as one CRS once .epsg has been read and as two before: both answers are accepted here.
+        r.outcome = f"pyproj-identifies-both-as-EPSG:{ea}:{hist}:{'returned-input' if out is g else 'projected'}"
+        if out is g:
+            ident = all(_tr_coords(fwd, c) == list(c) for _, _, c in paths(shp))
+            if not ident:
+                fail(f"{tag}:input-returned-unprojected", f"{call}: input returned although the transformation is not the identity")
+            return r
+    return _judge_between(r, fail, tag, call, g, out, shp, fwd, inv, Pb, res, same)
 
 
 def slices(tier):
@@ -1284,6 +1783,18 @@ def slices(tier):
                  "points x 2 resolutions through densify(), line.segmented(), polygon-with-hole.segmented(); and "
                  "{line, polygon-with-hole} x 3 CRS pairs x {plain, wrapdateline (geographic destination)} x steps x "
                  "4 (thorough 8) directions x 2 start points through to_crs(resolution=)"),
+        e1.Slice("odd-resolutions", gen_odd(tier), run_odd,
+                 "resolution given as 0 / 0.0 / -0.0 / negative / -inf / nan / numpy zero, as numpy float64 / float32 / "
+                 "int64 / 0-d array / int, and 'auto' on zero-area geometries x {densify, segmented, to_crs} x kinds; "
+                 "every call in a child process killed after 2 s", shards=32),
+        e1.Slice("encodings", gen_enc(tier), run_enc,
+                 "coordinates as float / int / list / np.float32 / np.float64 / np.int32 / -0.0 / 3-D GeoJSON (z dropped) "
+                 "/ ndarray through the library constructors x 5 kinds x 2 placements x {densify, segmented, to_crs, "
+                 "to_crs(resolution)}: all clauses + identical to the float-tuple result"),
+        e1.Slice("boundary-edges", gen_boundary(tier), run_boundary,
+                 "edge length / resolution in {0.9, 0.999, 1-1e-12, 1, 1+1e-12, 1.001, 1.1, 1.999, 2.001, 2.9, 3.1} x 8 "
+                 "directions x 4 origins x edge length {4.5e-6, 1, 30, 1e7}; {65535.5, 65536.5, 70000.3} pieces per "
+                 "edge; densify() (caller's list untouched, second call identical) and line.segmented()"),
         e1.Slice("densify-edges", gen_edges(tier), run_edges,
                  "all ordered vertex pairs of {-2,-1,0,1,2,5}^2 (incl. zero-length) x scale x offset x resolution; "
                  "densify() and line.segmented(); thorough adds all two-edge paths on {-1,0,2}^2"),
@@ -1299,10 +1810,15 @@ def slices(tier):
                  "ID kept; unedited controls) x partner {the EPSG it names, 4326} x direction x 7 histories of reads on "
                  "the CRS objects (.epsg, to_epsg, ==, str/repr/hash/authority) x target as object/text x 5 kinds x "
                  "resolution {None, finite}; oracle transformer built from the definition texts"),
+        e1.Slice("to_crs-near-same", gen_near(tier), run_near,
+                 "all ordered pairs of 8 definitions valid near 15E 50N (4326, 4258, 32633, 25833, 3035, a LAEA "
+                 "without EPSG code as PROJ string and as WKT, the same shifted by 1e-6 deg) x history {cold, .epsg "
+                 "read, called twice, another target first} x target as object/text x {point, polygon-with-hole} x "
+                 "resolution {None, finite}; unchanged only where pyproj calls the definitions equal"),
         e1.Slice("to_crs-same", gen_same(tier), run_same,
-                 "3 CRSs x 6 spellings of the geometry's CRS x 6 spellings of the target x kinds x resolution"),
+                 "3 CRSs x 8 spellings (incl. PROJJSON dict, mixed case) of the geometry's CRS x 8 of the target x kinds x resolution"),
         e1.Slice("to_crs-nocrs", gen_nocrs(tier), run_nocrs,
-                 "kinds x 3 targets x 6 spellings x resolution"),
+                 "kinds x 3 targets x 8 spellings x resolution"),
         e1.Slice("transformer", gen_transformer(tier), run_transformer,
                  "CRS.transformer_to_crs: 8 directed pairs x 3 placements x call form x spelling x order of three "
                  "requests (destination xy / authority order, second destination), 36 grid points each, against "
